@@ -25,7 +25,8 @@ BODIES = [
     "'''doc é'''\nvalue = 1\n",
     "if True:\n    text = '£' * 3\nelse:\n    text = ''\n",
 ]
-FIRST_LINES = [None, '#!/usr/bin/env python', '#!/usr/bin/python3 -u', '#! /bin/sh ', '#!/usr/bin/pythön', '#!', '# not a shebang']
+FIRST_LINES = [None, '#!/usr/bin/env python', '#!/usr/bin/python3 -u', '#! /bin/sh ', '#!/usr/bin/pythön', '#!', '# not a shebang',
+               '#!/usr/bin/python -*- coding: {ENC} -*-']
 ENCODINGS = [('utf-8', None, False), ('utf-8', None, True), ('utf-8', 'utf-8', False), ('latin-1', 'latin-1', False),
              ('cp1252', 'cp1252', False), ('iso-8859-15', 'iso-8859-15', False)]
 NEWLINES = ['\n', '\r\n', '\r']
@@ -33,6 +34,11 @@ NEWLINES = ['\n', '\r\n', '\r']
 
 def build(body, first, enc, cookie, bom, nl):
     lines = []
+    if first is not None and '{ENC}' in first:
+        # the coding declaration sits in the shebang line itself (PEP 263 allows line 1 or 2)
+        if cookie is None:
+            return None
+        first, cookie = first.replace('{ENC}', cookie), None
     if first is not None:
         lines.append(first)
     if cookie is not None:
@@ -104,6 +110,8 @@ def one_case(ctx, body, first, enc, cookie, bom, nl, preserve, as_bytes):
 
 def shapes(first, enc, nl, as_bytes):
     s = []
+    if first and 'coding' in first:
+        s.append('cookie-in-shebang')
     if nl == '\r':
         s.append('lone-cr-newlines')
     if as_bytes and first and any(ord(c) > 127 for c in first) and enc != 'utf-8':
